@@ -344,7 +344,7 @@ class Trace(Family):
 
     # -- generation ---------------------------------------------------------
     def gen(self, rng, tier):
-        n = 60 if tier == "quick" else 400
+        n = 80 if tier == "quick" else 400
         out = []
         kinds = ["dense", "sparse", "tucker", "sum"]
         for i in range(n):
@@ -900,9 +900,9 @@ class Orders(Trace):
 
     def gen(self, rng, tier):
         out = []
-        kinds = ["dense"] if tier == "quick" else ["dense", "sparse", "tucker", "sum"]
+        kinds = ["dense", "sum"] if tier == "quick" else ["dense", "sparse", "tucker", "sum"]
         for kind in kinds:
-            for N in ([3] if tier == "quick" else [2, 3]):
+            for N in (([3] if kind == "dense" else [2]) if tier == "quick" else [2, 3]):
                 R = 2
                 shape = [3, 4, 2][:N] if N == 3 else [4, 3]
                 data = gen_data(rng, kind, shape, R)
@@ -1027,7 +1027,7 @@ class Formulas(Family):
     theorems = ("C09_residual", "C09_residual_sum", "C09_stop_rule")
 
     def gen(self, rng, tier):
-        n = 60 if tier == "quick" else 400
+        n = 80 if tier == "quick" else 400
         out = []
         names = ["branchZero", "normresidualZero", "fitZero", "normresidual", "fit", "fitchange", "stopTest",
                  "firstIteration", "colWeightFirst", "colWeightLater"]
